@@ -389,7 +389,7 @@ def coarsest_float(*objs):
     return info
 
 
-def vector_cells(kind, is_ds, v1, e1, v2, e2, got_v, got_e, want_v, hide, info):
+def vector_cells(kind, is_ds, v1, e1, v2, e2, got_v, got_e, want_v, hide, info, has_int=False):
     """value = the plain array operation; error = first-order uncorrelated
     propagation, computed here in float64 from detached copies.  Returns a
     description of the first bad cell or None."""
@@ -430,6 +430,9 @@ def vector_cells(kind, is_ds, v1, e1, v2, e2, got_v, got_e, want_v, hide, info):
             & np.isfinite(e2) & np.isfinite(exp) & np.isfinite(want_v)
         for term in terms:
             ok_in &= (term == 0) | ((np.abs(term) >= low) & (np.abs(term) <= high))
+        if has_int and is_ds:   # integer arithmetic wraps around: small numbers only
+            for arr in (v1, v2, e1, e2):
+                ok_in &= np.abs(arr) <= 10
         tol = max(1e-10, 64 * eps)
         close = np.abs(got_e - exp) <= tol * np.maximum(np.abs(got_e), np.abs(exp)) + 1e-300
         k = np.flatnonzero(show & ok_in & ~close)
@@ -473,7 +476,8 @@ def oracle_binop(ctx, kind, left, rhs, out, case, expect_raise):
     if not plain_float64(left, rhs, out):
         # large datasets and other dtypes: the same clauses, vectorised, tolerance of the coarsest dtype
         bad = vector_cells(kind, is_ds, v1s, e1s, v2s, np.asarray(e2s, dtype=float), gvs, ges, wvs,
-                           hide, coarsest_float(left, rhs, out))
+                           hide, coarsest_float(left, rhs, out),
+                           any(dt.kind in 'iu' for dt in dtypes_of(left) + dtypes_of(rhs)))
         if bad:
             ctx.oracle_failure(f'{tag}: {bad} :: {case}', case,
                                key=f'{kind}-{"value" if bad.startswith("value") else "error"}-vec')
